@@ -523,25 +523,27 @@ def _mk_from_bits_fns( fields, total_nbits ):
 #-------------------------------------------------------------------------
 
 def _recursive_check_array_types( current ):
+  # Returns ( leaf type, dimensions ). Every element must have the same
+  # leaf type AND the same shape as element 0 because all generated methods
+  # derive every element from type_[0].
   x = current[0]
   if isinstance( x, list ):
-    x_len  = len(x)
-    x_type = _recursive_check_array_types( x )
+    x_type, x_dims = _recursive_check_array_types( x )
     for y in current[1:]:
-      assert isinstance( y, list ) and len(y) == x_len
-      y_type = _recursive_check_array_types( y )
-      assert y_type is x_type
-    return x_type
+      assert isinstance( y, list )
+      y_type, y_dims = _recursive_check_array_types( y )
+      assert y_type is x_type and y_dims == x_dims
+    return x_type, [ len(current) ] + x_dims
 
   assert issubclass( x, Bits ) or is_bitstruct_class( x )
   for y in current[1:]:
     assert y is x
-  return x
+  return x, [ len(current) ]
 
 def _check_valid_array_of_types( arr ):
   # Check if the provided list is a strict multidimensional array
   try:
-    return _recursive_check_array_types( arr )
+    return _recursive_check_array_types( arr )[0]
   except Exception as e:
     print(e)
     return None
